@@ -4,21 +4,35 @@ import os
 from vf import Inconclusive, parallel, require_clean, validate_traces, vfj_lines, b2s
 
 CLAIM = {
-    "text": "Inputs.tla specifies one invocation over a file-system tree: expansion of every argument into mentions (path, glob with literal fallback, -R walk of regular files, '-'/none = <stdin>), the result of opening/reading each mention (plain, gzip under -z with fallback to byte 0, corrupt/truncated gzip, directory-as-file, missing), the output rows, the read-error count and the exit status with its precedence. TLC (a) decides relational laws of that specification over the whole bounded universe (per-argument additivity, walk completeness, nothing dropped, read-once multiplicity, fault isolation, -z transparency, decoding, exit precedence), (b) explores every interleaving of the implementation-shaped reader life cycle InputsLife (expansion goroutine, semaphore dispatcher, open/probe/rewind/read/error/release, close) for every scenario and shows semaphore bound, no leak, termination and that the final deliveries/error count/exit status are exactly those of Inputs, (c) enumerates every scenario with its demanded outcome, which the harness materialises on disk and runs through the REAL rare binary (filter and histogram --csv) and the batcher library, comparing rows, exit status, final message, reported errors, summary and ReadErrors(); all observations, and seeded random larger trees, are validated record by record by TLC (Inputs_Trace).",
-    "note": "Bounded: exhaustive within the universe of InputsUniv (7-node skeleton tree, one varied slot, 17 argument forms, <=2 arguments); beyond that seeded random trees (<=4 levels, <=60 files). Glob syntax: * and ? and literals only. Without -z nothing is demanded about compressed files; '-' only as the sole argument; -z with stdin not covered. Permission errors are not producible as root. Trusted: filepath.Glob/Walk, compress/gzip, Go regexp, encoding/csv, the OS.",
-    "technique": "TLA+ model checking (TLC): functional oracle + life-cycle state machine, model-outcome replay on the real binary, trace validation",
+    "text": "Inputs.tla specifies one invocation over a file-system tree: expansion of every argument into mentions (path, glob with literal fallback, -R walk of regular files, '-'/none = <stdin>), the result of opening/reading each mention (plain, gzip under -z with fallback to byte 0, corrupt/truncated gzip, directory-as-file, missing) independently of its transport (regular file; FIFO, /dev/stdin, process substitution: cannot be rewound, report size 0), the output rows, the read-error count, the exit status with its precedence, and the resource bound: never more than --readers inputs open, whatever the number of mentions and the descriptor limit. TLC (a) decides relational laws of that specification over the whole bounded universe (per-argument additivity, walk completeness, nothing dropped, read-once multiplicity, fault isolation, -z transparency, decoding, transport transparency, independence of the descriptor limit, exit precedence), (b) explores every interleaving of the implementation-shaped reader life cycle InputsLife (expansion goroutine, semaphore dispatcher, open taking a descriptor / probe by gzip.NewReader resp. by peeking through a recorder on a pipe / rewind resp. replay / read / error / close / release) for every scenario and shows semaphore bound, descriptor bound open <= readers <= MaxFd (hence no readable input fails to open), no leak, termination and that the final deliveries/error count/exit status are exactly those of Inputs - and refutes five deliberately broken designs (slot leak on open error, open before the slot, probe of a pipe without recorder, with Seek, skipped for reported size 0), (c) enumerates every scenario with its demanded outcome, which the harness materialises on disk (FIFOs with driver-side writers, inherited pipes/files for /dev/stdin and /dev/fd/3) and runs through the REAL rare binary (filter and histogram --csv) and the batcher library, comparing rows, exit status, final message, reported errors, summary, ReadErrors() and - while a FIFO input holds its reader slot - the number of inputs the process has open (/proc/<pid>/fd); all observations, seeded random larger trees, and runs with MORE inputs than a lowered RLIMIT_NOFILE whose reader slots are all held by FIFOs, are validated record by record by TLC (Inputs_Trace).",
+    "note": "Bounded: exhaustive within the universe of InputsUniv (7-node skeleton tree, one varied slot incl. FIFO variants, one external input /dev/stdin or /dev/fd/3, 19 argument forms, <=2 arguments); beyond that seeded random trees (<=4 levels, <=60 files, FIFOs, inherited descriptors) and descriptor-limit runs (30-60 inputs, limit readers+16..21). Glob syntax: * and ? and literals only. Without -z nothing is demanded about compressed files; '-' only as the sole argument; -z with '-' not covered. A pipe is mentioned at most once and never reached by a -R walk. Permission errors are not producible as root. Trusted: filepath.Glob/Walk, compress/gzip, Go regexp, encoding/csv, the OS.",
+    "technique": "TLA+ model checking (TLC): functional oracle + life-cycle state machine with resource bound and refuted broken designs, model-outcome replay on the real binary, trace validation",
 }
 
-LIFE_INV = "SemaOK ErrsOK LinesOnce FinalOK NoStall"
-LAWS = "LDomain LAdditive LWalk LLiteral LOnce LTwice LIsolation LMissing LPlainUnderZ LDecoded LExit"
+LIFE_INV = "SemaOK FdOK ErrsOK LinesOnce FinalOK NoStall"
+LAWS = ("LDomain LAdditive LWalk LLiteral LOnce LTwice LIsolation LMissing LPlainUnderZ LDecoded LExit "
+        "LTransport LLimit")
 LIFE_ACTIONS = ("Produce", "Dispatch", "OpenFail", "Open", "Probe", "Rewind", "ReadLine", "ReadErr", "ReadEnd",
                 "Release", "Close")
 
 
-def life_cfg(level, pairs, leak=False):
+def life_cfg(level, pairs, sel="all", part=0, nparts=1, leak=False, openfirst=False, pipeprobe="record"):
+    """InputsLife: the design (all defaults) or one of the deliberately broken designs."""
     return ("SPECIFICATION Spec\nCONSTANTS Level = %d\n ProbeLen = 3\n Leak = %s\n LifePairs = {%s}\n"
-            " LifeT0Only = %s\nINVARIANTS %s\nPROPERTIES Terminates\n" % (
-                level, "TRUE" if leak else "FALSE", ", ".join(map(str, pairs)), "TRUE" if leak else "FALSE", LIFE_INV))
+            " LifeSel = \"%s\"\n Part = %d\n NParts = %d\n MaxFd = 2\n OpenFirst = %s\n PipeProbe = \"%s\"\n"
+            "INVARIANTS %s\nPROPERTIES Terminates\n" % (
+                level, "TRUE" if leak else "FALSE", ", ".join(map(str, pairs)), sel, part, nparts,
+                "TRUE" if openfirst else "FALSE", pipeprobe, LIFE_INV))
+
+
+# the broken designs TLC must refute (sensitivity of the life-cycle model): label -> (cfg kwargs, pairs)
+BROKEN = [
+    ("Leak: the open-error path keeps its reader slot", dict(sel="t0", leak=True), (8,)),
+    ("OpenFirst: the input is opened before the reader slot is taken", dict(sel="t0", openfirst=True), (13,)),
+    ("PipeProbe=norecord: what the failed header check consumed from a pipe is lost", dict(sel="pipes", pipeprobe="norecord"), (1,)),
+    ("PipeProbe=seek: a pipe is probed and rewound like a regular file", dict(sel="pipes", pipeprobe="seek"), (1,)),
+    ("PipeProbe=sizeskip: no gzip probe when the reported size is 0", dict(sel="pipes", pipeprobe="sizeskip"), (1,)),
+]
 
 
 def part_cfg(kind, level, part, nparts):
@@ -48,7 +62,8 @@ def rec_class(rec):
     if not rec["args"] or rec["args"][0] == [[45]]:
         c = "stdin-" + rec["stdin"]["k"]
     else:
-        ks = sorted({n["k"] for n in rec["tree"]} - {"file", "dir"})
+        ks = sorted(({n["k"] for n in rec["tree"]} - {"file", "dir"}) |
+                    ({"pipe"} if any(n.get("tr") == "pipe" for n in rec["tree"]) else set()))
         c = "+".join(ks) or "plain"
     return c + (",z" if rec["gz"] else "") + (",R" if rec["rec"] else "")
 
@@ -58,6 +73,12 @@ def rec_argv(rec):
 
 
 B2_BASE = 1000000      # record ids of the random (B2) records are shifted by this in the merged trace
+FD_BASE = 2000000      # ... and those of the descriptor-limit records by this
+TAG_BASE = {"b1t": 0, "b2": B2_BASE, "fd": FD_BASE}
+
+
+def tag_of(t):
+    return "fd" if t >= FD_BASE else "b2" if t >= B2_BASE else "b1t"
 
 
 def validate(run, traces, chunks):
@@ -69,9 +90,9 @@ def validate(run, traces, chunks):
         for tag, path in traces:
             count[tag] = 0
             for line in open(path):
-                if tag == "b2":
+                if TAG_BASE[tag]:
                     rec = json.loads(line)
-                    rec["t"] += B2_BASE
+                    rec["t"] += TAG_BASE[tag]
                     line = json.dumps(rec, separators=(",", ":")) + "\n"
                 out.write(line)
                 count[tag] += 1
@@ -80,7 +101,7 @@ def validate(run, traces, chunks):
             for i, p in enumerate(parts)]
     consumed = 0
     skipped = {tag: 0 for tag, _ in traces}
-    for p, (res, r) in zip(parts, parallel(jobs, 4)):
+    for p, (res, r) in zip(parts, parallel(jobs, 6)):
         if not res.get("done"):
             raise Inconclusive("trace validation incomplete")
         consumed += res["consumed"]
@@ -90,10 +111,10 @@ def validate(run, traces, chunks):
                 rec = json.loads(line)
                 recs[rec["t"]] = rec
         for t in res["skippedt"]:
-            skipped["b2" if t >= B2_BASE else "b1t"] += 1
+            skipped[tag_of(t)] += 1
         for b in res["bad"]:
             rec = recs[b["t"]]
-            tag = "b2" if b["t"] >= B2_BASE else "b1t"
+            tag = tag_of(b["t"])
             why = "+".join(sorted(b["why"]))
             sig = "%s:%s:%s:%s" % (tag, rec["cmd"], why, rec_class(rec))
             # one replay file per signature (a broken build can disagree on thousands of records)
@@ -101,9 +122,11 @@ def validate(run, traces, chunks):
             SEEN.setdefault(sig, rp)
             run.violation(sig,
                           "run of `%s` %s (flags R=%s z=%s readers=%d) is not explained by Inputs.tla: "
-                          "disagreeing observables %s; observed exit=%s msg=%s reported-errors=%s lib-errors=%s" % (
-                              rec["cmd"], rec_argv(rec), rec["rec"], rec["gz"], rec["readers"], b["why"],
-                              rec["obs"]["exit"], rec["obs"]["msg"], rec["obs"]["nlog"], rec["lib"]["nerr"]), rp)
+                          "disagreeing observables %s; observed exit=%s msg=%s reported-errors=%s lib-errors=%s; "
+                          "descriptor limit %s, inputs open at the same time: %s (library: %s)" % (
+                              rec["cmd"], rec_argv(rec)[:12], rec["rec"], rec["gz"], rec["readers"], b["why"],
+                              rec["obs"]["exit"], rec["obs"]["msg"], rec["obs"]["nlog"], rec["lib"]["nerr"],
+                              rec["nofile"] or "default", rec["obs"]["peak"], rec["lib"]["peak"]), rp)
     if consumed != n:
         raise Inconclusive("trace validation consumed %d of %d records" % (consumed, n))
     for tag, _ in traces:
@@ -117,24 +140,34 @@ def check(run):
     os.environ.setdefault("JAVA_TOOL_OPTIONS", "-XX:ParallelGCThreads=2")
     quick = run.tier == "quick"
     level = 1 if quick else 2
-    nparts = 4 if quick else 8
+    nparts = 6 if quick else 12
     run.assumptions += [
         "filepath.Glob / filepath.Walk, compress/gzip, Go regexp and encoding/csv are trusted; glob syntax limited to * ? and literals",
         "domain: clean relative paths; '-' only as the sole argument; without -z no compressed files are mentioned; -z with stdin excluded; no CR bytes",
         "a truncated gzip file may deliver any prefix of its content (one read error); all other kinds deliver exactly",
         "reported errors are the stderr lines '[Log] Error opening file <p>' / '[Log] Error reading <p>'; final message '[Log] Read errors' / '[Log] Parse errors'",
         "running as root: permission errors are not producible; faults used: missing path, path below a regular file, directory as file, directory as stdin, corrupt / checksum-damaged / truncated gzip",
+        "inputs that cannot be rewound and report size 0 (FIFO in the tree, /dev/stdin, /dev/fd/3 = process substitution; fed from a pipe, the last two also from a regular file) are in the domain when mentioned at most once and not reached by a -R walk (the property speaks of regular files there); they must deliver exactly what the regular file with the same bytes delivers",
+        "descriptors: at most --readers mentioned inputs (non-directories) are open for reading at the same time, counted from /proc/<pid>/fd while FIFO inputs hold the reader slots (a count stands only if three consecutive samples reach it); under a descriptor limit of at least readers + 16 no readable input may fail (the unchanged binary needs readers + 5)",
     ]
     rare = run.build_cli()
     run.build_harness()
 
     # ---- stage 1: B3 life cycle (all interleavings; in the background until the end), B1 generator,
-    #      random driver, and the deliberately broken life cycle that TLC must refute
+    #      random + descriptor-limit drivers, and the deliberately broken life cycles that TLC must refute
     from concurrent.futures import ThreadPoolExecutor
-    pairs = (1, 8) if quick else (1, 3, 8, 13)
-    bg = ThreadPoolExecutor(max_workers=1)
-    life_f = bg.submit(lambda: run.tlc("InputsLife", life_cfg(1, pairs), workers=4, coverage=True, timeout=3000,
-                                       label="InputsLife Level=1 pairs=%s" % (pairs,)))
+    pairs = (1, 8, 18) if quick else (1, 3, 8, 18)
+    lparts = 2 if quick else 8
+    bg = ThreadPoolExecutor(max_workers=3 if quick else 2)
+    life_fs = [bg.submit(lambda i=i: run.tlc("InputsLife", life_cfg(1, pairs, part=i, nparts=lparts), workers=2,
+                                             coverage=True, timeout=3000, xmx="4g",
+                                             label="InputsLife Level=1 pairs=%s part %d/%d" % (pairs, i, lparts)))
+               for i in range(lparts)]
+    # many mentions against few reader slots / descriptors (6 mentions, --readers 1..2, MaxFd 2)
+    t0pairs = (13, 14) if quick else (3, 10, 13, 14)
+    life_fs.append(bg.submit(lambda: run.tlc("InputsLife", life_cfg(level, t0pairs, sel="t0"), workers=2, coverage=True,
+                                             timeout=3000, xmx="3g",
+                                             label="InputsLife default tree, pairs=%s: up to 6 mentions" % (t0pairs,))))
     gens = [lambda i=i: run.tlc("Inputs_Gen", part_cfg("gen", level, i, nparts), workers=1, timeout=3000, xmx="3g",
                                 label="Inputs_Gen Level=%d part %d/%d" % (level, i, nparts)) for i in range(nparts)]
     rnd_out = os.path.join(run.scratch, "c06-random.json")
@@ -142,34 +175,46 @@ def check(run):
     nrand = 600 if quick else 12000
     rnd_drv = lambda: run.drv(["random", "-n", nrand, "-out", rnd_out, "-trace", rnd_tr, "-rare", rare,
                                "-work", os.path.join(run.scratch, "w2"), "-par", 4], timeout=3000)
-    # sensitivity of the model: the same life cycle WITHOUT the release on the open-error path must be refuted
-    leaky = lambda: run.tlc("InputsLife", life_cfg(1, (8,), leak=True), workers=1, timeout=3000, xmx="3g",
-                            label="InputsLife Leak=TRUE (must be refuted)")
-    res = parallel([rnd_drv, leaky] + gens, 6 if quick else 5)
-    if not res[1].violated:
-        raise Inconclusive("the life-cycle model does not notice a semaphore leak: %s" % res[1].out[-1500:])
-    res = [None] + res[2:]
+    fd_out = os.path.join(run.scratch, "c06-fdlimit.json")
+    fd_tr = os.path.join(run.scratch, "c06-fdlimit-trace.ndjson")
+    nfd = 18 if quick else 150
+    fd_drv = lambda: run.drv(["fdlimit", "-n", nfd, "-out", fd_out, "-trace", fd_tr, "-rare", rare,
+                              "-work", os.path.join(run.scratch, "w3"), "-par", 3], timeout=3000)
+    # sensitivity of the model: each broken design must be refuted
+    broken = [lambda b=b: run.tlc("InputsLife", life_cfg(1, b[2], **b[1]), workers=1, timeout=3000, xmx="3g",
+                                  label="InputsLife broken design (must be refuted): " + b[0]) for b in BROKEN]
+    res = parallel([rnd_drv, fd_drv] + broken + gens, 7 if quick else 5)
+    for b, r in zip(BROKEN, res[2:2 + len(BROKEN)]):
+        if not r.violated:
+            raise Inconclusive("the life-cycle model does not refute the broken design '%s': %s" % (b[0], r.out[-1500:]))
+    run.cov["broken_designs_refuted"] = [b[0] for b in BROKEN]
+    res = res[2 + len(BROKEN):]
     vec_path = os.path.join(run.scratch, "c06-vectors.ndjson")
     nvec = 0
     classes = {}
     with open(vec_path, "w") as f:
-        for r in res[1:]:
+        for r in res:
             if r.violated or r.errors:
                 raise Inconclusive("generator failed: %s" % r.out[-2000:])
             for v in vfj_lines(r.out):
                 f.write(json.dumps(v, separators=(",", ":")) + "\n")
                 nvec += 1
                 e = v["exp"]
+                pipes = [n for n in v["tree"] if n["tr"] == "pipe"]
                 for c in ("exit%d-%s" % (e["exit"], e["msg"]),
                           "read+parse" if e["nerr"] and e["parse"] else None,
                           "partial" if e["partial"] else None,
                           "stdin" if v["usestdin"] else None,
                           "multi-mention" if len(v["mentions"]) > len(v["argv"]) else None,
-                          "literal-fallback" if any(m in v["argv"] for m in v["mentions"]) and e["nerr"] else None):
+                          "literal-fallback" if any(m in v["argv"] for m in v["mentions"]) and e["nerr"] else None,
+                          "fifo" if any(n["p"][0] != 47 for n in pipes) else None,
+                          "fifo-gzip" if any(n["p"][0] != 47 and n["k"] == "gz" for n in pipes) else None,
+                          "fifo-magic-not-gzip" if any(n["k"] == "file" and n["data"][:2] == [31, 139] for n in pipes) else None,
+                          "dev-stdin-or-fd" if any(n["p"][0] == 47 for n in v["tree"]) else None):
                     if c:
                         classes[c] = classes.get(c, 0) + 1
     need = ["exit0-none", "exit1-none", "exit2-read", "exit2-parse", "read+parse", "partial", "stdin",
-            "multi-mention", "literal-fallback"]
+            "multi-mention", "literal-fallback", "fifo", "fifo-gzip", "fifo-magic-not-gzip", "dev-stdin-or-fd"]
     if nvec < 3000 or any(c not in classes for c in need):
         raise Inconclusive("generator produced %d vectors, classes %s" % (nvec, classes))
     run.cov["b1_vector_classes"] = classes
@@ -183,7 +228,7 @@ def check(run):
                  "-work", os.path.join(run.scratch, "w1"), "-par", 10], timeout=3000)
     laws = [lambda i=i: run.tlc("Inputs_MC", part_cfg("mc", level, i, nparts), workers=1, timeout=3000, xmx="3g",
                                 label="Inputs_MC laws Level=%d part %d/%d" % (level, i, nparts)) for i in range(nparts)]
-    res = parallel([drivers] + laws, 5)
+    res = parallel([drivers] + laws, 7 if quick else 5)
     for r in res[1:]:
         require_clean(run, r, "Inputs_MC laws")
 
@@ -199,31 +244,46 @@ def check(run):
         sc = m["scenario"]
         run.violation("b1:%s:%s:%s" % (sc["cmd"], m["kind"], m["class"]),
                       "`rare %s` in tree %s: %s; stderr: %s" % (
-                          " ".join(m["argv"]), [(bytes(n["p"]).decode("latin1"), n["k"]) for n in sc["tree"]],
+                          " ".join(m["argv"]), [(bytes(n["p"]).decode("latin1"), n["k"], n["tr"]) for n in sc["tree"]],
                           m["detail"], m["stderr"][:400].replace("\n", " / ")), m)
 
-    # ---- stage 3: TLC validates every recorded observation (B1 records and B2 random records)
-    rl = life_f.result()
+    # ---- stage 3: TLC validates every recorded observation (B1 records, B2 random records, descriptor-limit records)
+    rls = [f.result() for f in life_fs]
     bg.shutdown()
-    vres = validate(run, [("b1t", rep_tr), ("b2", rnd_tr)], 4 if quick else 12)
+    vres = validate(run, [("b1t", rep_tr), ("b2", rnd_tr), ("fd", fd_tr)], 6 if quick else 12)
     n2, sk2 = vres["b2"]
     if vres["b1t"][1]:
         raise Inconclusive("%d generated scenarios are outside the specification's own domain" % vres["b1t"][1])
+    if vres["fd"][1]:
+        raise Inconclusive("%d descriptor-limit scenarios are outside the specification's domain" % vres["fd"][1])
     rnd = json.load(open(rnd_out))
-    run.cov["traces_validated_against_impl"] += n2 - sk2
-    run.cov["evaluations"] += n2
+    fdr = json.load(open(fd_out))
+    if fdr["runs"] and fdr["sampled"] * 2 < fdr["runs"]:
+        raise Inconclusive("the open inputs could be counted in only %d of %d descriptor-limit runs" % (fdr["sampled"], fdr["runs"]))
+    run.cov["traces_validated_against_impl"] += n2 - sk2 + vres["fd"][0]
+    run.cov["evaluations"] += n2 + vres["fd"][0]
     run.cov["distinct_nontrivial"] += rnd["exit2_runs"]
     run.cov["b2_random"] = rnd
     run.cov["b2_outside_domain"] = sk2
+    run.cov["fdlimit"] = fdr
     with open(rnd_tr) as f:
         rec = json.loads(next(f))
         run.sample({"b2_record": {"argv": rec_argv(rec), "R": rec["rec"], "z": rec["gz"], "nodes": len(rec["tree"]),
                                   "exit": rec["obs"]["exit"], "rows": len(rec["obs"]["rows"])}})
-    require_clean(run, rl, "InputsLife")
-    zero = [a for a in LIFE_ACTIONS if rl.coverage.get("InputsLife." + a, (1, 1))[0] == 0]
+    with open(fd_tr) as f:
+        rec = json.loads(next(f))
+        run.sample({"fdlimit_record": {"argv": rec_argv(rec)[:8], "readers": rec["readers"], "nofile": rec["nofile"],
+                                       "nodes": len(rec["tree"]), "exit": rec["obs"]["exit"],
+                                       "inputs_open_at_once": rec["obs"]["peak"], "library": rec["lib"]["peak"]}})
+    taken = {}
+    for rl in rls:
+        require_clean(run, rl, "InputsLife")
+        for a in LIFE_ACTIONS:
+            taken[a] = taken.get(a, 0) + rl.coverage.get("InputsLife." + a, (1, 1))[0]
+    zero = [a for a in LIFE_ACTIONS if taken[a] == 0]
     if zero:
         raise Inconclusive("vacuous life-cycle model: actions never taken: %s" % zero)
     run.cov["rule"] = ("B3: every interleaving of InputsLife for every scenario of the bounded universe + laws of Inputs; "
                        "B1: every scenario of the universe run through the real binary and the batcher library, "
                        "non-trivial = at least one output row or read error demanded; B2: seeded random trees, "
-                       "non-trivial = run ended with exit status 2")
+                       "non-trivial = run ended with exit status 2; descriptor-limit runs: more inputs than descriptors")
